@@ -300,6 +300,21 @@ func genConfig(r *c.Rng, big bool) Config {
 		if r.Chance(1, 3) {
 			cfg.Flows = append(cfg.Flows, g.flow("C", c.Pick(r, []string{mainURL, "c04.test/other"}), 3, 2, false))
 		}
+		a, b := &cfg.Flows[0], &cfg.Flows[1]
+		switch r.Intn(6) {
+		case 0:
+			// the same processor key in two flows: two processors (B's keeps its own header)
+			renameProc(b, b.Procs[0].Key, a.Procs[0].Key, true)
+		case 1:
+			// A uses a processor declared by B ("B.<key>") in place of one of its own Filters
+			for i := len(a.Procs) - 1; i > 0; i-- {
+				if a.Procs[i].Type == tFilter && b.Procs[0].Type == tFilter {
+					renameProc(a, a.Procs[i].Key, "B."+b.Procs[0].Key, false)
+					a.Procs = append(a.Procs[:i], a.Procs[i+1:]...)
+					break
+				}
+			}
+		}
 	default: // A (and sometimes B) go through the shared flow X
 		x := g.flow("X", c.Pick(r, []string{"c04.test/x", "c04.test/x", mainURL}), 3, 2, true)
 		users := []string{"A"}
@@ -371,4 +386,23 @@ func headerSets(r *c.Rng, hs []string, limit int) [][]string {
 		out = append(out, s)
 	}
 	return out
+}
+
+// renameProc renames a processor key throughout one flow.
+func renameProc(f *FlowCfg, old, nw string, decl bool) {
+	for i := range f.Procs {
+		if decl && f.Procs[i].Key == old {
+			f.Procs[i].Key = nw
+		}
+	}
+	for _, cs := range [][]Conn{f.Req, f.Res} {
+		for i := range cs {
+			if cs[i].From.Kind == "proc" && cs[i].From.Name == old {
+				cs[i].From.Name = nw
+			}
+			if cs[i].To.Kind == "proc" && cs[i].To.Name == old {
+				cs[i].To.Name = nw
+			}
+		}
+	}
 }
